@@ -54,6 +54,7 @@ type FuncContract struct {
 	HasAssigns bool
 	BeforeAssume []*Clause
 	SplitExits bool
+	PropKinds  map[string][]string // property -> obligation kinds it owns here (from "fileprops P:kind+kind"); absent: all untagged
 	Decreases  *Clause // function-level variant: checked at calls between functions that both declare one
 	AssignsAny bool // "assigns anything": no heap frame is claimed (effects and ghost logs still are)
 	Effects    []string
@@ -362,11 +363,22 @@ func (P *Program) parseClauses(lines []cline, sc *Scope, pkgPath string, lib boo
 			}
 			P.Contracts[fc.Key] = fc
 			cur = fc
-			cur.Props = append(cur.Props, fileProps...)
+			for _, fp := range fileProps {
+				name, kinds, _ := strings.Cut(fp, ":")
+				if kinds == "" {
+					cur.Props = append(cur.Props, name)
+					continue
+				}
+				if cur.PropKinds == nil {
+					cur.PropKinds = map[string][]string{}
+				}
+				cur.PropKinds[name] = append(cur.PropKinds[name], strings.Split(kinds, "+")...)
+			}
 		case "fileprops":
 			// fileprops Cxx, ...: every function declared below in this file belongs to these properties
 			// (its untagged obligations - frames, effects, call preconditions, safety, untagged invariants -
-			// and the clauses tagged with them count for those properties)
+			// and the clauses tagged with them count for those properties).  Cxx:kind+kind restricts the
+			// untagged obligations the property owns here to those kinds (safety, call, effects, frame, loop)
 			fileProps = append(fileProps, splitNames(rest)...)
 		case "requires", "ensures", "check", "captured":
 			if cur == nil {
